@@ -60,6 +60,11 @@ Z("HUGESMTPTEXT", define("qmail-remote.c", "HUGESMTPTEXT"))
 S("flagdying_expr", expr_norm("qmail-send.c", r"\.flagdying\s*=\s*([^;]*);"))
 S("pass_due_test", expr_norm("qmail-send.c", r"if\s*\(\s*(pe\.dt\s*[<>=!]+\s*recent)\s*\)\s*return;"))
 
+L("quote_ok", int_array("quote.c", "ok"))
+def str_array(f, name):
+    m = re.search(r"\(?\s*%s\s*\[\s*\]\s*\)?\s*=\s*\{(.*?)\}\s*;" % name, strip_comments(rd(f)), re.S)
+    return re.findall(r'"([^"]*)"', m.group(1)) if m else []
+out.append("Definition hfield_names : list string := [%s]." % "; ".join(coq_str(x) + "%string" for x in str_array("hfield.c", "hname")))
 os.makedirs(os.path.join(V, "coq", "gen"), exist_ok=True)
 p = os.path.join(V, "coq", "gen", "Params_gen.v")
 txt = "\n".join(out) + "\n"
